@@ -23,6 +23,9 @@ pub fn install_panic_hook() {
             .location()
             .map(|l| format!("{}:{}", l.file(), l.line()))
             .unwrap_or_default();
+        if std::env::var_os("MC_PANIC_VERBOSE").is_some() {
+            eprintln!("panic: {info}");
+        }
         PANIC_LOC.with(|p| *p.borrow_mut() = loc);
         galloc::resume(prev);
     }));
